@@ -77,9 +77,75 @@ fn unitables() {
     ranges("lower_differs", |c| c.to_lowercase().to_string() != c.to_string());
 }
 
+/// `capture <stage>`: run `<stage>` in a child process with piped stdout, and turn each
+/// ##CASE..##END group into one result line: the `##R k=v` fields in order, then
+/// `out=<hex of every other line the case printed>` (ructe's own println! output).
+/// A child that dies in the middle of a case yields `died=1` for that case; the remaining
+/// input is handed to a fresh child.
+fn capture(stage: &str) {
+    use std::process::{Command, Stdio};
+    let stdin = std::io::stdin();
+    let lines: Vec<String> = stdin.lock().lines().map(|l| l.unwrap()).collect();
+    let mut next = 0usize;
+    let out = std::io::stdout();
+    let mut out = out.lock();
+    while next < lines.len() {
+        let mut child = Command::new(std::env::current_exe().unwrap())
+            .arg(stage)
+            .stdin(Stdio::piped())
+            .stdout(Stdio::piped())
+            .spawn()
+            .unwrap();
+        let mut cin = child.stdin.take().unwrap();
+        let batch: Vec<String> = lines[next..].to_vec();
+        let feeder = std::thread::spawn(move || {
+            for l in batch {
+                if writeln!(cin, "{l}").is_err() {
+                    break;
+                }
+            }
+        });
+        let reader = std::io::BufReader::new(child.stdout.take().unwrap());
+        let mut fields: Vec<String> = Vec::new();
+        let mut other: Vec<u8> = Vec::new();
+        let mut in_case = false;
+        for l in reader.split(b'\n') {
+            let l = l.unwrap();
+            if l == b"##CASE" {
+                in_case = true;
+                fields.clear();
+                other.clear();
+            } else if l == b"##END" {
+                writeln!(out, "{} out={}", fields.join(" "), hex(&other)).unwrap();
+                in_case = false;
+                next += 1;
+            } else if l.starts_with(b"##R ") {
+                fields.push(String::from_utf8_lossy(&l[4..]).into_owned());
+            } else if in_case {
+                other.extend_from_slice(&l);
+                other.push(b'\n');
+            }
+        }
+        let _ = child.wait();
+        let _ = feeder.join();
+        if in_case {
+            writeln!(out, "{} died=1 out={}", fields.join(" "), hex(&other)).unwrap();
+            next += 1;
+        } else if next < lines.len() {
+            // child ended between cases without consuming everything: avoid a livelock
+            writeln!(out, "died=1 out=-").unwrap();
+            next += 1;
+        }
+    }
+}
+
 fn main() {
     std::panic::set_hook(Box::new(|_| {}));
     let cmd = std::env::args().nth(1).unwrap_or_default();
+    if cmd == "capture" {
+        let stage = std::env::args().nth(2).unwrap_or_default();
+        return capture(&stage);
+    }
     match cmd.as_str() {
         "compile" => compile_cases(),
         "unitables" => unitables(),
